@@ -329,6 +329,13 @@ func makingslash(vs *ValidatorStore, evidences []types.Evidence) []Validator {
 }
 
 func (vs *ValidatorStore) HandleUnstake(unstake Unstake, height int64) error {
+	return vs.handleUnstake(unstake, height, true)
+}
+
+// handleUnstake lowers the recorded stake; purgeGuard refuses it within two blocks after
+// a purge (unstake transactions). The penalty of a guilty verdict is applied without the
+// guard: the delegation store has already been cut and the record must follow it.
+func (vs *ValidatorStore) handleUnstake(unstake Unstake, height int64, purgeGuard bool) error {
 	validator := &Validator{}
 
 	validator, err := vs.Get(unstake.Address)
@@ -344,7 +351,7 @@ func (vs *ValidatorStore) HandleUnstake(unstake Unstake, height int64) error {
 	if err != nil {
 		return errors.New("failed to get last purge height")
 	}
-	if purgeHeight > 0 && purgeHeight+2 > height {
+	if purgeGuard && purgeHeight > 0 && purgeHeight+2 > height {
 		return errors.New("not allowed to unstake within 2 blocks after unstake")
 	}
 	err = vs.set(*validator)
